@@ -4,6 +4,7 @@ CONSTANTS
   LeaveFix = FALSE
   MaxResets = 1
   Faults = TRUE
+  MaxProcs = 0
 VIEW view
 INVARIANT TypeOK
 INVARIANT StartedOnlyWhenAll
